@@ -876,7 +876,8 @@ extract_components(vector_string &components) const {
 /**
  * Converts the filename to standard form by replacing consecutive slashes
  * with a single slash, removing a trailing slash if present, and backing up
- * over .. sequences within the filename where possible.
+ * over .. sequences within the filename where possible (a .. that follows a
+ * symbolic link is kept, since removing it would change the file named).
  */
 void Filename::
 standardize() {
@@ -907,8 +908,29 @@ standardize() {
         components.pop_back();
         components.push_back(component);
       } else {
-        // Back up normally.
-        components.pop_back();
+        bool back_up = true;
+#if !defined(_WIN32) && !defined(__wasi__)
+        // Backing up over a symbolic link would name a different file than the
+        // one the operating system resolves ("link/.." is the parent of the
+        // link's target, not of the link): keep the ".." in that case.
+        string prefix = global ? "/" : "";
+        for (size_t i = 0; i < components.size(); ++i) {
+          if (i != 0) {
+            prefix += "/";
+          }
+          prefix += components[i];
+        }
+        struct stat this_buf;
+        if (lstat(prefix.c_str(), &this_buf) == 0 && S_ISLNK(this_buf.st_mode)) {
+          back_up = false;
+        }
+#endif
+        if (back_up) {
+          // Back up normally.
+          components.pop_back();
+        } else {
+          components.push_back(component);
+        }
       }
     } else {
       components.push_back(component);
@@ -1665,7 +1687,14 @@ make_relative_to(Filename directory, bool allow_backups) {
   for (int i = 0; i < slashes; i++) {
     result += "../";
   }
-  result += _filename.substr(common);
+  string remainder = _filename.substr(common);
+  if (!allow_backups &&
+      (remainder == ".." || remainder.compare(0, 3, "../") == 0)) {
+    // A ".." that standardize() had to keep (it follows a symbolic link) leads
+    // out of the indicated directory again.
+    return false;
+  }
+  result += remainder;
   (*this) = result;
 
   return true;
